@@ -470,6 +470,11 @@ PURE_STR_FUN = ('strip', 'lstrip', 'rstrip', 'lower', 'upper', 'title', 'replace
 def value_getattr(ip, obj, name):
   """methods of scalar values (str, tuple, z3 terms) -- everything string-like is delegated to
   harness extension points so that each property states which string axioms it relies on."""
+  ha = ip.ext.get(('attr', name))
+  if ha is not None:
+    r = ha(ip, obj)
+    if r is not NotImplemented:
+      return r
   h = ip.ext.get(('method', name))
   if h is not None:
     return Builtin(name, lambda ip2, args, kw, _o=obj: h(ip2, _o, *args, **kw))
